@@ -938,6 +938,137 @@ def lock_file_opened_once(ctx, rid):
 
 
 # ------------------------------------------------------------------------------------------------
+# R15.7  no lookup by name bypasses the normaliser
+
+def key_never_bypasses_relpath(ctx, rid):
+    from core import str_consts
+    ctx.rule(rid, "every path of File::from_name from entry to the lookup by name passes state::relpath (or is the //ALWAYS constant): no fast path keys the Files table by a spelling that was not canonicalised")
+    prog = ctx.prog
+    F = prog.one(r"state::File::from_name")
+    ba = BA.of(F)
+    queries = ba.calls(r"rusqlite::Connection::query_row|rusqlite::Connection::prepare|rusqlite::Statement::query_row")
+    relp = set(ba.calls(r"state::relpath"))
+    if not ctx.floor(rid, "lookups in from_name", len(queries), 1):
+        return
+    # the //ALWAYS side: blocks dominated by the `equal` edge of the comparison with the ALWAYS constant
+    always = set()
+    always_blocks = {bb for (bb, _, txt, named) in str_consts(F) if txt == "//ALWAYS" or (named or "").endswith("ALWAYS")}
+    for sw in sorted(ba.live):
+        bs = ba.bool_switch(sw)
+        if not bs:
+            continue
+        t_t, f_t, (kind, info) = bs
+        if kind != "call":
+            continue
+        cbb = info[0]
+        if not any(re.search(r"PartialEq(<.*>)?(>)?::(eq|ne)", p_) for p_ in callee_paths(info[1])):
+            continue
+        # does the compared value come from the ALWAYS constant?
+        uses_always = any(ba.dominates(x, cbb) and ba.path([x], [cbb], incl=True) is not None for x in always_blocks) and \
+            any(x == cbb or ba.path([x], [cbb], avoid=relp, incl=True) is not None for x in always_blocks)
+        if not uses_always:
+            continue
+        eq_side = t_t if any(p_.endswith("::eq") for p_ in callee_paths(info[1])) else f_t
+        always |= {b for b in ba.live if ba.edge_dominates((sw, eq_side), b)}
+    p_ = ba.path([0], queries, avoid=relp | always, incl=True)
+    ctx.ob(rid, "%s|lookup-key-passes-relpath" % F.key, p_ is None, where=ctx.where(F, p_[-1]) if p_ else F.span,
+           detail="every non-ALWAYS lookup is preceded by relpath(name, base)" if p_ is None else
+           "a lookup can be reached without state::relpath: a spelling through a symlinked directory gets a row of its own (path %s)" % " -> ".join("bb%d" % x for x in p_[:12]), witness=p_)
+
+
+# ------------------------------------------------------------------------------------------------
+# R15.8  relpath answers from a component-wise comparison
+
+def relpath_is_componentwise(ctx, rid):
+    ctx.rule(rid, "every Ok result of state::relpath is produced after a component-wise walk of both cleaned paths (Path::components / strip_prefix / ancestors): no byte-level prefix shortcut (`src` is not a prefix of `src2`)")
+    prog = ctx.prog
+    R = prog.one(r"state::relpath")
+    ba = BA.of(R)
+    comp = set(ba.calls(r"std::path::Path::(components|strip_prefix|ancestors|iter|starts_with)"))
+    oks = set(common.ok_returns(R)) if hasattr(common, "ok_returns") else set(ba.returns())
+    okb = set(common.blocks_with_agg(R, r"core::result::Result", "Ok"))
+    if not ctx.floor(rid, "component walks in relpath", len(comp), 1):
+        return
+    p_ = ba.path([0], okb or oks, avoid=comp, incl=True)
+    byte_level = [i for i in ba.all_calls() if any(re.fullmatch(r"core::slice::<impl \[T\]>::(strip_prefix|starts_with)|core::str::<impl str>::(strip_prefix|starts_with)", q) for q in callee_paths(R.blocks[i]["term"]))]
+    ctx.ob(rid, "%s|result-after-component-walk" % R.key, p_ is None and not byte_level, where=ctx.where(R, (byte_level or (p_ or [0]))[-1]) if (byte_level or p_) else R.span,
+           detail="every Ok result follows a component-wise comparison" if p_ is None and not byte_level else
+           "relpath can answer from a byte / string prefix test without walking components: sibling directories one of whose names is a prefix of the other are confused")
+
+
+# ------------------------------------------------------------------------------------------------
+# R18.10  names in records are relative to the directory of the current target
+
+def record_names_relative_to_target_dir(ctx, rid):
+    ctx.rule(rid, "state::target_relpath makes names relative to the directory of the target being built (derived from Env::target() through Path::parent), which is the directory the log reader resolves them against; the .do file's directory differs from it when a default.*.do in a parent directory builds the target")
+    prog = ctx.prog
+    T = prog.one(r"state::target_relpath")
+    ba = BA.of(T)
+    rp = ba.calls(r"state::relpath")
+    tg = ba.calls(r"env::Env::target")
+    par = ba.calls(r"std::path::Path::parent")
+    if not ctx.floor(rid, "relpath calls in target_relpath", len(rp), 1):
+        return
+    ok = False
+    if tg and par:
+        tn = taint(T, seeds={T.blocks[i]["term"]["dest"]["l"] for i in tg}, mode="derived")
+        pn = taint(T, seeds={T.blocks[i]["term"]["dest"]["l"] for i in par if (op_local(T.blocks[i]["term"]["args"][0]) in tn or any(x in tn for x in ba.ref_chain(op_local(T.blocks[i]["term"]["args"][0]))))}, mode="derived")
+        for i in rp:
+            a = T.blocks[i]["term"]["args"]
+            if len(a) > 1 and op_local(a[1]) is not None and (op_local(a[1]) in pn or any(x in pn for x in ba.ref_chain(op_local(a[1])))):
+                ok = True
+    ctx.ob(rid, "%s|base=parent(dofile_dir.join(target))" % T.key, ok, where=ctx.where(T, rp[0]),
+           detail="the base of the relative name derives from parent(.. Env::target() ..)" if ok else
+           "record names are no longer relative to the current target's own directory: redo-log resolves them against that directory and looks up the wrong target (`not known to redo`, output lost)")
+
+
+# ------------------------------------------------------------------------------------------------
+# R18.11  a line that is not a valid record is written out whole
+
+def non_record_line_echoed_whole(ctx, rid):
+    ctx.rule(rid, "PrettyLog::write_line emits a slice of the line (the text in front of a record) only where a record was parsed; on every other path the bytes written are the whole line")
+    prog = ctx.prog
+    W = prog.one(r"logs::PrettyLog::write_line")
+    fam = [W] + [c for k, c in prog.bodies.items() if k.startswith(W.key + "::{")]
+    ba = BA.of(W)
+    slicers = [i for i in ba.all_calls() if any(re.fullmatch(r"core::str::<impl str>::(split_at|split_once|split_at_mut)|.*::index::Index(<.*>)?(>)?::index|core::str::traits::<impl core::ops::index::Index<I> for str>::index|core::ops::index::Index::index", q) for q in callee_paths(W.blocks[i]["term"]))]
+    if not ctx.floor(rid, "slices of the line taken in write_line", len(slicers), 1):
+        return
+    st = taint(W, seeds={W.blocks[i]["term"]["dest"]["l"] for i in slicers}, mode="derived")
+    sinks = [i for i in ba.all_calls() if any(re.fullmatch(r"(<.* as )?std::io::Write(>)?::(write|write_all)|std::io::Write::(write|write_all)|(<.* as )?core::iter::traits::collect::Extend(<.*>)?(>)?::extend|alloc::vec::Vec::extend_from_slice", q) for q in callee_paths(W.blocks[i]["term"]))]
+    # "a record was parsed" edges: the Some / Ok arm of a switch on a value whose type carries a logs::Meta
+    ok_edges = []
+    for sw in sorted(ba.live):
+        es = ba.enum_switch(sw)
+        if not es:
+            continue
+        ty = W.locals[es[0]["l"]]
+        if "logs::Meta" not in ty:
+            continue
+        if ty.startswith("core::option::Option"):
+            tgt = es[1].get(1)
+        elif ty.startswith("core::result::Result"):
+            tgt = es[1].get(0)
+        else:
+            tgt = None
+        if tgt is not None:
+            ok_edges.append((sw, tgt))
+    bad = []
+    n = 0
+    for i in sinks:
+        t = W.blocks[i]["term"]
+        arg = op_local(t["args"][1]) if len(t["args"]) > 1 else None
+        if arg is None or not (arg in st or any(x in st for x in ba.ref_chain(arg))):
+            continue
+        n += 1
+        if not any(ba.edge_dominates(e, i) for e in ok_edges):
+            bad.append(i)
+    ctx.ob(rid, "%s|slice-written-only-with-a-parsed-record" % W.key, not bad and bool(ok_edges), where=ctx.where(W, bad[0]) if bad else W.span,
+           detail="%d write(s) of a slice of the line, all under `record parsed`" % n if not bad and ok_edges else
+           "a slice of the line is written on a path where no record was parsed: script output that merely contains the record marker is truncated at the marker")
+
+
+# ------------------------------------------------------------------------------------------------
 # rules that are necessary conditions of several properties are evaluated once, in the table they were written
 # for, and reported under every property they matter to
 
@@ -1000,7 +1131,9 @@ TABLE = {
     "C09": [("R9.8", borrow("C12", "R12.2", None, "a lock id that is not registered turns a cycle into an endless fcntl wait")),
             ("R9.9", borrow("C08", "R8.1", None, "a counter written outside the accounting functions breaks the top-level self-test: an all-success build exits 1"))],
     "C17": [("R17.6", ood_lists_every_nonclean), ("R17.7", check_never_refreshes_stamps)],
-    "C18": [("R18.7", done_status_type_agrees), ("R18.8", seen_only_when_shown), ("R18.9", record_after_partial_line)],
+    "C18": [("R18.7", done_status_type_agrees), ("R18.8", seen_only_when_shown), ("R18.9", record_after_partial_line),
+            ("R18.10", record_names_relative_to_target_dir), ("R18.11", non_record_line_echoed_whole)],
+    "C15": [("R15.7", key_never_bypasses_relpath), ("R15.8", relpath_is_componentwise)],
     "C10": [("R10.8", rename_inside_result_transaction), ("R10.10", interrupted_creation_is_recoverable),
             ("R10.9", borrow("C05", "R5.3", None, "a job that dies (non-zero or by signal) has its un-redeclared edges deleted by zap_deps2, so it must be marked failed in the same transaction or it looks clean after the kill"))],
     "C12": [("R12.9", every_modified_dep_is_descended)],
